@@ -1,20 +1,17 @@
-"""Per-property configuration for bin/check and bin/mkmanifest."""
+"""Per-property configuration for bin/check and bin/mkmanifest: one file per property in bin/propsd/Cxx.py
+defining PROP = dict(...). A property is claimed in MANIFEST.json iff its file exists and sets claimed (default True)."""
+import os, sys, importlib.util, glob
 
-COMMON_TRUSTED = [
-    "Go semantics assumed by the models: slices/maps/integer conversions, FIFO buffered channels, errgroup.SetLimit blocks Go, sort.Slice yields a sorted permutation",
-]
-
-PROPS = {
-    "C18": dict(
-        title="Parallel epoch search returns a hit whenever one exists",
-        coq_target="Properties/C18.vo",
-        harness=[dict(name="firstsuccess", pkg=".", run="^TestVerif_C18$",
-                      files={"zz_verif_c18_test.go": "harness/main/c18_test.go"}, timeout=900, timeout_thorough=2400)],
-        technique="Coq proof over all schedules of a transition-system model of FirstSuccess + exhaustive gated-order correspondence against the Go code",
-        level_text="Theorems (Coq, no axioms) for every job list, limit and schedule: a success result is a job's value, an error result lists a permutation of all errors and implies all jobs failed, progress (never stuck) and a 3n+2 bound on schedule length. Tie: the real FirstSuccess/JobGroup is run on every outcome vector x completion order x limit for <=4 (quick) / <=5 (thorough) jobs and each observed result must satisfy the proved acceptance predicate (and equal the model's run where the order is forced).",
-        level_note="Trusted: Coq kernel; the hand-written transition system (launcher/workers/closer/consumer; errgroup limit; buffered FIFO channel) as a model of first-success.go, validated by exhaustive small-scope runs; live request context only.",
-        design_ref="5 (C18)",
-        trusted=["model FS.v of first-success.go (hand-written; tied by exhaustive correspondence for small job counts)"] + COMMON_TRUSTED,
-        assumptions=["request context stays live", "errgroup/channels behave as modelled"],
-    ),
-}
+_D = os.path.join(os.path.dirname(os.path.abspath(__file__)), "propsd")
+sys.path.insert(0, _D)
+PROPS = {}
+NOT_APPLICABLE = {}
+for _p in sorted(glob.glob(os.path.join(_D, "C*.py"))):
+    _id = os.path.basename(_p)[:-3]
+    _spec = importlib.util.spec_from_file_location("propsd_" + _id, _p)
+    _m = importlib.util.module_from_spec(_spec)
+    _spec.loader.exec_module(_m)
+    if getattr(_m, "PROP", None) is not None and _m.PROP.get("claimed", True):
+        PROPS[_id] = _m.PROP
+    elif hasattr(_m, "NOT_APPLICABLE"):
+        NOT_APPLICABLE[_id] = _m.NOT_APPLICABLE
